@@ -1454,6 +1454,10 @@ def selftest(pids, quick=False, seed=0, verbose=True, repo=None):
         if want != val:
             r['mismatches'] += 1
             mismatches.append((sp['lean_name'], case, 'Python %s %r, after %r but Lean stream %s' % (kind, res, want, val)))
+    nrej = reject_tests(verbose)
+    if nrej:
+        mismatches.append(('py2lean_c18.reject_tests', {}, '%d snippets were not handled as expected' % nrej))
+    report['_reject_snippets'] = {'snippets': len(REJECT) + 1, 'not_as_expected': nrej}
     report['_mismatches'] = [{'function': n, 'case': c, 'what': b} for n, c, b in mismatches[:5]]
     report['_wall_s'] = round(time.time() - t0, 2)
     report['_lean_s'] = round(t_lean, 2)
@@ -1465,8 +1469,97 @@ def selftest(pids, quick=False, seed=0, verbose=True, repo=None):
     return len(mismatches), report
 
 
+# ------------------------------------------------------------------------------------------------ must be refused
+_REJ_CLS = {'name': 'K', 'lean_name': 'K', 'unit': 'UInt8', 'seq_class': 'bytes', 'nl': 'PyRtC18.isNL', 'fd_of': '_buffer',
+            'buffer_property': {'name': 'buffer', 'field': '_buffer', 'new': 'BytesIO'},
+            'state': {'_buffer': 'File', '_n': 'Int', '_fs': 'List File'}}
+_REJ_HEAD = (
+    "class K:\n"
+    "    @property\n"
+    "    def buffer(self):\n"
+    "        try:\n"
+    "            return self._buffer\n"
+    "        except AttributeError:\n"
+    "            self._buffer = BytesIO()\n"
+    "        return self._buffer\n"
+    "    def bump(self):\n"
+    "        self._n += 1\n"
+    "        return self._n\n")
+# (method source, parameter types, result, why it must be refused; 'control': must TRANSLATE)
+REJECT = [
+    ('def m(self):\n        x = self._buffer\n        return x.tell()', {}, 'Int', 'alias of a file object'),
+    ('def m(self):\n        return self._n + self.bump()', {}, 'Int', 'state-changing call after a read of the state'),
+    ('def m(self):\n        return self.bump() + self._n', {}, 'Int', 'control: the read comes after the call'),
+    ('def m(self, a):\n        if a > 0:\n            x = 1\n        return x', {'a': 'Int'}, 'Int', 'unbound local'),
+    ('def m(self, a):\n        if a > 0:\n            x = 1\n        else:\n            x = 2\n        return x', {'a': 'Int'},
+     'Int', 'control: assigned on both paths'),
+    ('def m(self):\n        return self.buffer.peek()', {}, 'Bytes', 'undeclared file operation'),
+    ('def m(self):\n        return self.other', {}, 'Int', 'undeclared attribute'),
+    ('def m(self, a):\n        while a > 0:\n            while a > 1:\n                a -= 1\n            a -= 1\n        return a',
+     {'a': 'Int'}, 'Int', 'nested while'),
+    ('def m(self, a):\n        while self.bump() < a:\n            a -= 1\n        return a', {'a': 'Int'}, 'Int',
+     'while condition with an operation'),
+    ('def m(self, a):\n        return a > 0 and self.buffer.tell() > a', {'a': 'Int'}, 'Bool',
+     'operation in a conditionally evaluated operand'),
+    ('def m(self):\n        try:\n            return self.buffer.tell()\n        except ValueError:\n            return 0', {}, 'Int',
+     'try/except'),
+    ('def m(self):\n        t = TemporaryFile()\n        self._buffer = t\n        return t.tell()', {}, 'Int',
+     'local file used after it was stored'),
+    ('def m(self):\n        t = TemporaryFile()\n        p = t.tell()\n        self._buffer = t\n        return p', {}, 'Int',
+     'control: a fresh local file moved into the object'),
+    ('def m(self):\n        for f in self._fs:\n            f.seek(0)\n            f.read()\n        return 0', {}, 'Int',
+     'loop body with two operations'),
+    ('def m(self):\n        for f in self._fs:\n            f.seek(0)\n        return 0', {}, 'Int', 'control: per-file loop'),
+    ('def m(self, a):\n        raise ValueError(a.foo())', {'a': 'Int'}, 'None', 'exception argument that could raise'),
+    ('def m(self, *a):\n        return 0', {}, 'Int', 'parameter list differs from the spec'),
+    ('def m(self):\n        return self.buffer.read(n=3)', {}, 'Bytes', 'keyword argument of a file operation'),
+    ('def m(self, a):\n        return a // 2', {'a': 'Int'}, 'Int', 'operator outside the subset'),
+    ('def m(self, a):\n        if a > 0:\n            return 1', {'a': 'Int'}, 'Int', 'falls off its end with a non-None result'),
+    ('def m(self):\n        self._fs[0] = self._buffer\n        return 0', {}, 'Int', 'item assignment'),
+    ('def m(self):\n        return os.fstat(3).st_size', {}, 'Int', 'fstat of something that is not a descriptor'),
+]
+_REJ_BAD_PROP = (
+    "class K:\n"
+    "    @property\n"
+    "    def buffer(self):\n"
+    "        if not hasattr(self, '_buffer'):\n"
+    "            self._buffer = BytesIO(b'x')\n"
+    "        return self._buffer\n"
+    "    def m(self):\n"
+    "        return self.buffer.tell()\n")
+
+
+def reject_tests(verbose=True):
+    """-> number of snippets that were NOT handled as expected"""
+    bad = 0
+
+    def run(src, params, result):
+        cls = dict(_REJ_CLS)
+        sp = {'py': 'm', 'name': 'm', 'params': params, 'result': result, 'cls': cls, 'tie_theorem': '-',
+              'gen_file': 'rej'}
+        bump = {'py': 'bump', 'name': 'bump', 'params': {}, 'result': 'Int', 'cls': cls, 'tie_theorem': '-',
+                'gen_file': 'rej'}
+        cls['methods'] = [bump, sp] if 'def bump' in src else [sp]
+        _, infos = translate_source(src, cls['methods'], 'rej', 'rej.py')
+        return infos[-1].get('error')
+    for body, params, result, why in REJECT:
+        err = run(_REJ_HEAD + '    ' + body + '\n', params, result)
+        expect_ok = why.startswith('control')
+        if bool(err) == expect_ok:
+            bad += 1
+            if verbose:
+                print('REJECT-TEST FAILED (%s): -> %r' % (why, err))
+    if not run(_REJ_BAD_PROP, {}, 'Int'):
+        bad += 1
+        if verbose:
+            print('REJECT-TEST FAILED: a buffer property outside the normal form was accepted')
+    if verbose:
+        print('py2lean_c18 reject tests: %d snippets, %d not as expected' % (len(REJECT) + 1, bad))
+    return bad
+
+
 if __name__ == '__main__':
     import sys
     sys.path.insert(0, os.path.dirname(os.path.abspath(__file__)))
-    n, _ = selftest(['C18'], quick='--quick' in sys.argv, seed=0)
+    n = selftest(['C18'], quick='--quick' in sys.argv, seed=0)[0]
     sys.exit(1 if n else 0)
